@@ -264,3 +264,26 @@ def allocation(cls, nr, nt, nsc, dirbc, rules):
             t.append("  inner_boundary_circle_matrix_.row_start_indices_[%d] = %d;" % (k, v))
         t.append("  for (int s = 0; s < %d; s++) { inner_boundary_circle_matrix_.column_indices_[s] = -1; inner_boundary_circle_matrix_.values_[s] = 0; }" % rs[-1])
     return t
+
+
+
+def parallel_assembly(cls, rules, hashes):
+    """the multi-threaded branch of <cls>::buildAscMatrices (3-colour task order with the ntheta % 3 remainder rule) as sequential text:
+    one admissible schedule of the assembly; race freedom of the schedule is C11's subject"""
+    from vlib import Src, match_close, common_body_rewrites, sha, ExtractError
+    cfg = CFG[cls]
+    f = Src.get("%s/%s" % (cfg["dir"], cfg["build_file"])).function("%s::buildAscMatrices" % cls)
+    body = f["body"]
+    k = body.find("omp_get_max_threads() == 1")
+    i = body.find("else {", k)
+    if k < 0 or i < 0:
+        raise ExtractError("%s::buildAscMatrices: multi-threaded assembly branch not found" % cls)
+    bo = body.index("{", i)
+    bc = match_close(body, bo, "{", "}")
+    hashes["%s::buildAscMatrices (multi-threaded assembly branch)" % cls] = sha(body[bo:bc + 1])
+    par = common_body_rewrites(body[bo:bc + 1], rules, "R")
+    par, n = re.subn(r"\bbuildAsc(Circle|Radial)Section\((\w+|\d+)\)", r"%s_buildAsc\1Section__impl(\2)" % cls, par)
+    rules.log.append(("C06.parallel_assembly_calls(%s)" % cls, n))
+    if n < 6:
+        raise ExtractError("%s::buildAscMatrices: only %d section calls in the multi-threaded branch" % (cls, n))
+    return "static void %s_assemble_parallel_order(void)\n%s\n" % (cls, par)
